@@ -1,4 +1,5 @@
 import MpsVerif.Proofs.PipelineInc
+import MpsVerif.Proofs.PipelineLaws
 /-!
 # C03 — stream pipelines equal their sequential meaning
 
@@ -132,6 +133,111 @@ theorem C03_incremental_k (ops : List Op) (hone : ∀ op ∈ ops, op.oneOne = tr
       | Option.none => 0) = 0 := by rw [h]
   rw [e, hl] at this
   exact this
+
+/-! ### operator laws: the sequential meaning against the list library -/
+
+/-- `shuffle(n)` yields a permutation of its input: for every buffer size `n ≥ 1`, every sequence
+    of `randrange` answers `idx` and every final-shuffle script `perm`, on every cleanly ending input -/
+theorem C03_shuffle_perm (n : Nat) (hn : 0 < n) (idx perm : List Nat) (vals : List Val) :
+    (sem (.shuffle n idx perm) ⟨vals, Option.none⟩).vals.Perm vals ∧
+    (sem (.shuffle n idx perm) ⟨vals, Option.none⟩).err = Option.none := by
+  have := semShuffle_perm n hn perm vals [] idx (Nat.zero_le _)
+  simpa [sem] using this
+
+/-- `map f` where `f` succeeds on every element is `List.map` -/
+theorem C03_law_map (f : Val → Res) (g : Val → Val) (s : Strm) (h : ∀ v ∈ s.vals, f v = .ok (g v)) :
+    sem (.map f) s = ⟨s.vals.map g, s.err⟩ := semMap_total f g s.vals s.err h
+
+/-- `map f` ends with the error of the first element on which `f` raises, after the results of the
+    elements before it; nothing after it matters -/
+theorem C03_law_map_first_failure (f : Val → Res) (g : Val → Val) (pre post : List Val) (x : Val)
+    (e : Option Err) (x' : Err) (h : ∀ v ∈ pre, f v = .ok (g v)) (hx : f x = .raise x') :
+    sem (.map f) ⟨pre ++ x :: post, e⟩ = ⟨pre.map g, some x'⟩ := semMap_cut f g pre post x e x' h hx
+
+/-- `filter p` with a predicate that does not raise is `List.filter` (Python truth value of `p v`) -/
+theorem C03_law_filter (p : Val → Res) (b : Val → Val) (s : Strm) (h : ∀ v ∈ s.vals, p v = .ok (b v)) :
+    sem (.filter p) s = ⟨s.vals.filter (fun v => (b v).truthy), s.err⟩ := semFilter_total p b s.vals s.err h
+
+/-- on a cleanly ending stream `head n` is `take n` … -/
+theorem C03_law_head (n : Nat) (vals : List Val) :
+    sem (.head n) ⟨vals, Option.none⟩ = ⟨vals.take n, Option.none⟩ := by
+  simp only [sem]
+  split
+  · rfl
+  · rw [List.take_of_length_le (by omega)]
+
+/-- … and in general it is `take n` with the source's ending kept only if the source has no
+    more than `n` values -/
+theorem C03_law_head_general (n : Nat) (s : Strm) :
+    (sem (.head n) s).vals = s.vals.take n ∧
+    (sem (.head n) s).err = if n < s.vals.length then Option.none else s.err := by
+  simp only [sem]
+  split
+  · exact ⟨rfl, rfl⟩
+  · exact ⟨(List.take_of_length_le (by omega)).symm, rfl⟩
+
+/-- on a cleanly ending stream `tail n` is `drop (length − n)`; after a failing source it yields nothing -/
+theorem C03_law_tail (n : Nat) (vals : List Val) :
+    sem (.tail n) ⟨vals, Option.none⟩ = ⟨vals.drop (vals.length - n), Option.none⟩ ∧
+    ∀ e, sem (.tail n) ⟨vals, some e⟩ = ⟨[], some e⟩ := ⟨rfl, fun _ => rfl⟩
+
+/-- `batch n` (`n ≥ 1`): the output is a list of Python lists `ls` such that every batch has between
+    1 and `n` elements, all but the last exactly `n`, the source's ending is kept, and — when the
+    source ends cleanly — their concatenation is the input -/
+theorem C03_law_batch (n : Nat) (hn : 0 < n) (s : Strm) :
+    ∃ ls : List (List Val),
+      (sem (.batch n) s).vals = ls.map Val.ofList ∧ (sem (.batch n) s).err = s.err ∧
+      (s.err = Option.none → ls.flatten = s.vals) ∧
+      (∀ b ∈ ls, 0 < b.length ∧ b.length ≤ n) ∧ (∀ b ∈ ls.dropLast, b.length = n) := by
+  obtain ⟨ls, h1, h2, h3, h4, h5⟩ := semBatch_shape n hn s.vals s.err [] hn
+  exact ⟨ls, h1, h2, fun he => by simpa using h3 he, h4, h5⟩
+
+/-- `unbatch ∘ batch n = id` on every cleanly ending stream -/
+theorem C03_law_unbatch_batch (n : Nat) (hn : 0 < n) (vals : List Val) :
+    semAll [.batch n, .unbatch] ⟨vals, Option.none⟩ = ⟨vals, Option.none⟩ := by
+  obtain ⟨ls, h1, h2, h3, _, _⟩ := C03_law_batch n hn ⟨vals, Option.none⟩
+  simp only [semAll, sem] at h1 h2 h3 ⊢
+  rw [h1, h2, semUnbatch_ofLists, h3 trivial]
+
+/-- `filter_exceptions(drop, keep)`: an element is raised iff it is an exception object whose class
+    is neither kept nor dropped … -/
+theorem C03_law_filterExc_verdict (d k : ExcSel) (v : Val) (e : Err) :
+    excVerdict d k v = .raise e ↔
+      ∃ t a, v = .exc t a ∧ k.has t = false ∧ d.has t = false ∧ e = ⟨t, a⟩ := excVerdict_raise_iff d k v e
+
+/-- … the stream ends with exactly the *first* such element (raised), after the kept elements
+    before it … -/
+theorem C03_law_filterExc_first (d k : ExcSel) (pre post : List Val) (x : Val) (e : Option Err) (x' : Err)
+    (h : ∀ v ∈ pre, (excVerdict d k v).isRaise = false) (hx : excVerdict d k x = .raise x') :
+    sem (.filterExc d k) ⟨pre ++ x :: post, e⟩ =
+      ⟨pre.filter (fun v => (excVerdict d k v).isKeep), some x'⟩ := semFilterExc_first d k pre post x e x' h hx
+
+/-- … and without such an element it is `List.filter` on "kept", with the source's ending -/
+theorem C03_law_filterExc_clean (d k : ExcSel) (s : Strm)
+    (h : ∀ v ∈ s.vals, (excVerdict d k v).isRaise = false) :
+    sem (.filterExc d k) s = ⟨s.vals.filter (fun v => (excVerdict d k v).isKeep), s.err⟩ :=
+  semFilterExc_clean d k s.vals s.err h
+
+/-- `groupby key` (with the documented materialising `map`) on a cleanly ending stream, `key` not
+    raising: the output is a list of `(key, members)` pairs with non-empty member lists of constant
+    key whose concatenation is the input -/
+theorem C03_law_groupby (key : Val → Res) (k : Val → Val) (vals : List Val)
+    (hk : ∀ v ∈ vals, key v = .ok (k v)) :
+    ∃ gs : List (Val × List Val),
+      sem (.groupby key) ⟨vals, Option.none⟩ = ⟨gs.map (fun g => Val.pair g.1 (Val.ofList g.2)), Option.none⟩ ∧
+      (gs.map (·.2)).flatten = vals ∧ ∀ g ∈ gs, g.2 ≠ [] ∧ ∀ x ∈ g.2, k x = g.1 := by
+  obtain ⟨gs, h1, h2, h3, h4⟩ := semGroup_shape key k vals hk Option.none (by simp)
+  refine ⟨gs, ?_, by simpa using h3, h4⟩
+  simp only [sem]
+  rcases hs : semGroup key Option.none vals Option.none with ⟨v, e⟩
+  rw [hs] at h1 h2
+  simp only at h1 h2
+  rw [h1, h2]
+
+/-- `buffer n` and `peek` are the identity; `parmap f` without flags is `map f` -/
+theorem C03_law_identity (n : Nat) (f : Val → Res) (c : Nat) (s : Strm) :
+    sem (.buffer n) s = s ∧ sem .peek s = s ∧ sem (.parmap f c false false) s = sem (.map f) s :=
+  ⟨rfl, rfl, semParmap_plain f s.vals s.err⟩
 
 /-! ### non-vacuity -/
 
